@@ -54,6 +54,9 @@ class C09(PropBase):
             lines = G.gen_lines(rng, 1 + rng.below(8))
             data = G.corrupt(rng, G.join(rng, lines, eol_mode=rng.below(3)), 1 + rng.below(3))
             add("corrupt", data, G.sched_random(rng, len(data), style=rng.choice([0, 0, 4])))
+        # 2b. every numeric field of every record kind at 0 / max / one digit too many / out of range (exhaustive)
+        for data in G.boundary_files():
+            add("boundary", data)
         # 3. tiny / degenerate inputs
         for data in [b"", b"\n", b"\r\n", b"\r", b"x", b"MODULE", b"MODULE a b c d", b"MODULE a b c d\n", b"\n\n\n", b"\nMODULE a b c d\n",
                      b"MODULE a b c d\nMODULE a b c d\n", b"FUNC 1 1 0 f", b"\x00", b"\xff\n", b" \n", b"MODULE a b c d\n" + b"\n" * 3000]:
